@@ -190,6 +190,14 @@ def obligations(tier):
                   stubs=S_NODE + [f'_known_message_ids = deque(maxlen={ml}) instead of 200 (assigned by the harness)'],
                   bounds='5 Hellos with versions 1..5, message ids from a pool of 3, id memory of 2',
                   claim='an id is acted on iff it is not among the ids the node still remembers; acting on it makes it remembered'))
+    for ml2 in ((2, 3) if tier == 'quick' else (1, 2, 3, 4)):
+        obs.append(Ob(f'C14.dup.evict.outbound.mem{ml2}', 'harness.C14', 'dup_evict_outbound', bind={'maxlen': ml2}, timeout=t,
+                      functions=F_DGRAM + ['sdc11073.wsdiscovery.networkingthread.NetworkingThread.add_outbound_message'],
+                      stubs=S_NODE + [f'_known_message_ids = deque(maxlen={ml2}) instead of 200 (assigned by the harness)'],
+                      bounds=f'4 Hellos (versions 1..4, ids from a pool of 3, each with or without XAddrs: without, the node sends a '
+                             f'Resolve whose id enters the same memory), id memory of {ml2}',
+                      claim='received and sent ids share one memory consistently: an id is acted on iff it is not among the last ids seen '
+                            'or sent'))
     obs.append(Ob('C14.probe.answer', 'harness.C14', 'probe_answer', timeout=t, functions=F_PROBE, stubs=S_NODE,
                   bounds='2 services published via publish_service (A: one of 4 kinds; B: T1,T2 / X:/a/b y:/a); Probe with Types in {[], [T1], '
                          '[T2], [T1,T2], [T3]}, Scopes in {None, empty, 1 URI, 2 URIs} over 4 URIs, MatchBy in {absent, rfc3986, strcmp0, unknown}',
